@@ -23,12 +23,17 @@ pub struct Cfg {
     pub cthreads: usize,
     pub wal_files: usize,
     pub wal_bytes: u64,
+    /// `Options::mem_lz4` (default true); false: columns loaded from partition files go through `lz4_or_pco_decode`
+    pub mem_lz4: bool,
+    /// harness only: record which storage layouts (pco / pco-f32 / lz4 / dictionary / packed strings …) the partition files use
+    pub track_codecs: bool,
 }
 
 impl Cfg {
     pub fn plain() -> Cfg {
         let d = Options::default();
-        Cfg { combine: d.partition_combine_factor, part_bytes: d.max_partition_size_bytes, io: 1, cthreads: 1, wal_files: d.max_wal_files, wal_bytes: d.max_wal_size_bytes }
+        Cfg { combine: d.partition_combine_factor, part_bytes: d.max_partition_size_bytes, io: 1, cthreads: 1, wal_files: d.max_wal_files, wal_bytes: d.max_wal_size_bytes,
+              mem_lz4: true, track_codecs: false }
     }
     pub fn random(rng: &mut Rng, background: bool) -> Cfg {
         let d = Options::default();
@@ -39,6 +44,8 @@ impl Cfg {
             cthreads: *rng.pick(&[1usize, 2]),
             wal_files: if background && rng.chance(2, 3) { *rng.pick(&[0usize, 1, 2]) } else { d.max_wal_files },
             wal_bytes: if background && rng.chance(1, 2) { *rng.pick(&[1u64, 200, 600]) } else { d.max_wal_size_bytes },
+            mem_lz4: !rng.chance(1, 3),
+            track_codecs: false,
         }
     }
     /// Can a flush start without `force_flush` being called?
@@ -54,15 +61,16 @@ impl Cfg {
             wal_flush_compaction_threads: self.cthreads,
             max_wal_files: self.wal_files,
             max_wal_size_bytes: self.wal_bytes,
+            mem_lz4: self.mem_lz4,
             ..disk_options(path)
         }
     }
-    /// `cfg <combine> <part_bytes> <io> <cthreads> <wal_files> <wal_bytes>`
+    /// `cfg <combine> <part_bytes> <io> <cthreads> <wal_files> <wal_bytes> <mem_lz4>`
     pub fn tok(&self) -> String {
-        format!("{},{},{},{},{},{}", self.combine, self.part_bytes, self.io, self.cthreads, self.wal_files, self.wal_bytes)
+        format!("{},{},{},{},{},{},{}", self.combine, self.part_bytes, self.io, self.cthreads, self.wal_files, self.wal_bytes, self.mem_lz4 as u8)
     }
     pub fn class(&self) -> String {
-        format!("cf{}{}{}", self.combine, if self.part_bytes < 1000 { "+sub" } else { "" }, if self.background() { "+bg" } else { "" })
+        format!("cf{}{}{}{}", self.combine, if self.part_bytes < 1000 { "+sub" } else { "" }, if self.background() { "+bg" } else { "" }, if self.mem_lz4 { "" } else { "+lz4off" })
     }
 }
 
@@ -594,6 +602,10 @@ pub struct StepObs {
     pub boundary: bool,
     /// number of helper `force_flush()` calls that have returned so far
     pub answered: usize,
+    /// index of the history step this observation belongs to
+    pub step: usize,
+    /// storage layouts found in the partition files of the user tables (only with `Cfg::track_codecs`)
+    pub tags: String,
 }
 
 /// Run `steps` on a fresh directory; one observation per step (stops after the first hang / panic).
@@ -612,8 +624,9 @@ pub fn run_history_deadline(cfg: &Cfg, steps: &[Step], deadline: u64) -> Vec<Ste
     for (i, st) in steps.iter().enumerate() {
         if let Step::Inter(inter) = st {
             inter_seen = true;
-            let tables = tables_of(&steps[..=i]);
-            let sub = run_inter(&mut sut, dir.path(), inter, &tables, &mut answered, &mut requests);
+            let tables = tables_of(&steps[..i]);
+            let mut sub = run_inter(&mut sut, dir.path(), inter, &tables, &mut answered, &mut requests);
+            for o in sub.iter_mut() { o.step = i; }
             let _ = take_events(dir.path());
             prev_meta = read_meta(dir.path());
             let dead = sub.last().map(|o| o.dead).unwrap_or(true);
@@ -652,7 +665,8 @@ pub fn run_history_deadline(cfg: &Cfg, steps: &[Step], deadline: u64) -> Vec<Ste
         let dump = sut_dump(&sut, &tables);
         let dead = !sut.alive();
         out.push(StepObs { toks, kind, dump, listing: listing(dir.path()), meta, dead, detail: sut.panic_detail.clone(), effects,
-            inter: inter_seen, mid: false, boundary: true, answered });
+            inter: inter_seen, mid: false, boundary: true, answered, step: i,
+            tags: if cfg.track_codecs { codec_tags(dir.path()) } else { String::new() } });
         if dead { break; }
     }
     // dropping the database stops its threads; the directory is removed afterwards
@@ -669,7 +683,7 @@ pub fn history_line(cfg: &Cfg, obs: &[StepObs], k: usize) -> String {
 
 /// Short human-readable rendering of a history for the case note.
 pub fn describe(cfg: &Cfg, steps: &[Step]) -> String {
-    let mut s = format!("combine={} part_bytes={} io={} cthreads={} wal_files={} wal_bytes={} :", cfg.combine, cfg.part_bytes, cfg.io, cfg.cthreads, cfg.wal_files, cfg.wal_bytes);
+    let mut s = format!("combine={} part_bytes={} io={} cthreads={} wal_files={} wal_bytes={} mem_lz4={} :", cfg.combine, cfg.part_bytes, cfg.io, cfg.cthreads, cfg.wal_files, cfg.wal_bytes, cfg.mem_lz4);
     for st in steps {
         match st {
             Step::Ingest(bs) => {
@@ -843,20 +857,24 @@ fn wait_until(secs: u64, mut f: impl FnMut() -> bool) -> bool {
     }
 }
 
-/// Tokens of the model steps of a flush from `done` (exclusive) to `upto` (inclusive) completed steps; the catalogue of
+/// Tokens of the model steps of a flush (1 = freeze … 5 = delete_wal_segments, 6 = requests answered) from `done`
+/// (exclusive) to `upto` (inclusive) completed steps; the catalogue of
 /// `Zp` is filled in when the flush has completed (`@CAT@`).
 fn flush_toks(done: usize, upto: usize, k: usize) -> Vec<String> {
     let mut v = vec![];
     for step in (done + 1)..=upto {
-        v.push(match step { 1 => format!("Zb{}", k), 2 => "Zp@CAT@".to_string(), 3 => "Zm".into(), 4 => "Zd".into(), _ => "Zx".into() });
+        v.push(match step { 1 => format!("Zb{}", k), 2 => "Zp@CAT@".to_string(), 3 => "Zm".into(), 4 => "Zd".into(), 5 => "Zx".into(), _ => "Za".into() });
     }
     v
 }
 
 /// Run one flush step by step.  Returns one observation per ingestion performed while the flush was parked (`mid`),
 /// one when the flush has completed (before a possible follow-up flush runs), and one after the follow-up flush.
-pub fn run_inter(sut: &mut Sut, root: &Path, inter: &Inter, tables: &[String], answered: &mut usize, requests: &mut usize) -> Vec<StepObs> {
+pub fn run_inter(sut: &mut Sut, root: &Path, inter: &Inter, tables_before: &[String], answered: &mut usize, requests: &mut usize) -> Vec<StepObs> {
     let _token = FLUSH_TOKEN.lock().unwrap_or_else(|e| e.into_inner());
+    // tables that exist at each observation: those of the earlier steps + those ingested so far in this step
+    let tables: std::cell::RefCell<Vec<String>> = std::cell::RefCell::new(tables_before.to_vec());
+    let note_tables = |bs: &Vec<Batch>| { let mut t = tables.borrow_mut(); for b in bs { if !t.contains(&b.table) { t.push(b.table.clone()); } } };
     let g = gate();
     g.begin();
     let db = sut.db.clone().unwrap();
@@ -876,9 +894,9 @@ pub fn run_inter(sut: &mut Sut, root: &Path, inter: &Inter, tables: &[String], a
         wait_until(dl, || g.count("forceflush:registered") > before)
     };
     let obs = |sut: &Sut, toks: Vec<String>, kind: String, mid: bool, boundary: bool, answered: usize, dead: Option<&str>| -> StepObs {
-        let dump = match dead { Some(d) => d.to_string(), None => sut_dump(sut, tables) };
+        let dump = match dead { Some(d) => d.to_string(), None => sut_dump(sut, &tables.borrow()) };
         StepObs { toks: toks.join(" "), kind, dump, listing: listing(root), meta: read_meta(root), dead: dead.is_some() || !sut.alive(),
-            detail: sut.panic_detail.clone(), effects: "E_".into(), inter: true, mid, boundary, answered }
+            detail: sut.panic_detail.clone(), effects: "E_".into(), inter: true, mid, boundary, answered, step: 0, tags: String::new() }
     };
     macro_rules! fail { ($why:expr) => {{
         sut.dead = Some($why.to_string());
@@ -907,6 +925,7 @@ pub fn run_inter(sut: &mut Sut, root: &Path, inter: &Inter, tables: &[String], a
                 Some(Ok(())) => {}
             }
             pend_toks.push(ingest_tok(bs));
+            note_tables(bs);
             0
         }
     };
@@ -927,6 +946,7 @@ pub fn run_inter(sut: &mut Sut, root: &Path, inter: &Inter, tables: &[String], a
                         Some(Ok(())) => {}
                     }
                     pend_toks.push(ingest_tok(bs));
+                    note_tables(bs);
                     let o = obs(sut, std::mem::take(&mut pend_toks), format!("mid@{}", short), true, boundary, *answered, None);
                     out.push(o);
                 }
@@ -942,7 +962,7 @@ pub fn run_inter(sut: &mut Sut, root: &Path, inter: &Inter, tables: &[String], a
     }
     // flush 1 runs to its end
     if !wait_until(dl, || g.count("flush:gc:wal:after") >= 1) { fail!("hang:flush"); }
-    pend_toks.extend(flush_toks(steps_done, 5, k1));
+    pend_toks.extend(flush_toks(steps_done, 6, k1));
     // the requests taken by flush 1 must be answered now
     for (_, flag) in helpers.iter().take(unanswered_before_flush1) {
         if !wait_until(dl, || flag.load(std::sync::atomic::Ordering::SeqCst)) { fail!("hang:force_flush"); }
@@ -978,7 +998,7 @@ pub fn run_inter(sut: &mut Sut, root: &Path, inter: &Inter, tables: &[String], a
         g.end();
         sut.settle();
         let cat2 = meta_tok(&read_meta(root));
-        let mut toks = vec![format!("Zb{}", k2), format!("Zp{}", cat2), "Zm".into(), "Zd".into(), "Zx".into()];
+        let mut toks = vec![format!("Zb{}", k2), format!("Zp{}", cat2), "Zm".into(), "Zd".into(), "Zx".into(), "Za".into()];
         for (i, _) in &helpers { toks.push(format!("A{}", i)); }
         *answered += helpers.len();
         let o = obs(sut, toks, "Zend2".into(), false, true, *answered, None);
@@ -1175,6 +1195,116 @@ pub fn inter_jobs(args: &Args, rng: &mut Rng, tables: &[String], cols: &[String]
         steps.push(Step::Restart);
         if rng.chance(1, 2) { steps.push(Step::Ingest(req(rng))); steps.push(Step::Flush); steps.push(Step::Restart); }
         jobs.push(Job { class: format!("inter:rand:{}{}", cfg.class(), if stable { "" } else { "+vary" }), cfg, steps });
+    }
+    jobs
+}
+
+/// Which storage layouts do the partition files of the user tables use?  (`pcofp32` = pco over values narrowed to f32,
+/// `pco`, `lz4`, `dict`, `strpack`, `strhex`, `raw`; `+`-joined, sorted.)  Read with the implementation's own readers.
+pub fn codec_tags(root: &Path) -> String {
+    use vharness::locustdb::verif::PartitionSegment;
+    let mut tags: std::collections::BTreeSet<&'static str> = Default::default();
+    if let Some((_, parts)) = read_meta(root) {
+        let w = VersionedChecksummedBlobWriter::new(Box::new(FileBlobWriter::new()));
+        for p in parts.iter().filter(|p| !p.table.starts_with("_meta_")) {
+            let dir = root.join("tables").join(vharness::locustdb::verif::verif_sanitize_table_name(&p.table));
+            for k in &p.keys {
+                let path = dir.join(vharness::locustdb::verif::verif_partition_filename(p.id, k));
+                if let Some(seg) = w.load(&path).ok().and_then(|d| PartitionSegment::deserialize(&d).ok()) {
+                    for c in &seg.columns {
+                        let ops = format!("{:?}", vharness::locustdb::verif::mem_store::column::DataSource::codec(c).ops());
+                        let mut any = false;
+                        if ops.contains("Pco(") { any = true; tags.insert(if ops.contains(", true)") { "pcofp32" } else { "pco" }); }
+                        if ops.contains("LZ4(") { any = true; tags.insert("lz4"); }
+                        if ops.contains("DictLookup") { any = true; tags.insert("dict"); }
+                        if ops.contains("UnpackStrings") { any = true; tags.insert("strpack"); }
+                        if ops.contains("UnhexpackStrings") { any = true; tags.insert("strhex"); }
+                        if !any { tags.insert("raw"); }
+                    }
+                }
+            }
+        }
+    }
+    if tags.is_empty() { "none".into() } else { tags.into_iter().collect::<Vec<_>>().join("+") }
+}
+
+/// Two clean (lower-case alphanumeric) table names of 195 bytes that agree in their first 193 bytes: the sanitised
+/// directory name is cut to 189 bytes, only the hash of the full name keeps the two tables apart.
+pub fn long_table_pair() -> (String, String) {
+    let base: String = (0..193).map(|i| (b'a' + (i % 26) as u8) as char).collect();
+    (format!("{}01", base), format!("{}02", base))
+}
+
+/// Table-name pairs whose directories are equal up to what `sanitize_table_name` adds: > 189 bytes with a common
+/// prefix, case pairs, names the sanitiser rewrites to the same stem / to the empty stem.
+pub fn table_name_pairs() -> Vec<(&'static str, String, String)> {
+    let (l1, l2) = long_table_pair();
+    vec![
+        ("long-common-prefix", l1.clone(), l2),
+        ("long-vs-upper", l1.clone(), l1.to_uppercase()),
+        ("case-pair", "tab".into(), "Tab".into()),
+        ("same-stem", "ab".into(), "a/b".into()),
+        ("same-stem-space", "with space".into(), "withspace".into()),
+        ("leading-dot-dash", ".hidden".into(), "-hidden".into()),
+        ("empty-stem", "日本".into(), "größe".into()),
+    ]
+}
+
+/// Histories for table-name pairs: both tables get different rows, flush, restart, more rows, flush (compacting), restart.
+pub fn name_jobs(args: &Args) -> Vec<Job> {
+    let ints = |v: &[i64]| v.iter().map(|x| Cell::Int(*x)).collect::<Vec<_>>();
+    let mut jobs = vec![];
+    for (i, (what, x, y)) in table_name_pairs().into_iter().enumerate() {
+        let cfgs: Vec<Cfg> = if args.thorough() {
+            vec![Cfg { combine: 1, io: 1, ..Cfg::plain() }, Cfg { combine: 1, io: 4, ..Cfg::plain() }, Cfg { combine: 999, io: 4, mem_lz4: false, ..Cfg::plain() }, Cfg { combine: 0, io: 1, ..Cfg::plain() }]
+        } else { vec![Cfg { combine: 1, io: if i % 2 == 0 { 1 } else { 4 }, mem_lz4: i % 3 != 0, ..Cfg::plain() }] };
+        for cfg in cfgs {
+            jobs.push(Job { class: format!("names:{}", what), cfg, steps: vec![
+                Step::Ingest(vec![bat(&x, &[("a", ints(&[1, 2]))]), bat(&y, &[("a", ints(&[10]))])]),
+                Step::Flush, Step::Restart,
+                Step::Ingest(vec![bat(&x, &[("a", ints(&[3]))])]),
+                Step::Ingest(vec![bat(&y, &[("a", ints(&[11, 12]))])]),
+                Step::Flush, Step::Restart] });
+        }
+    }
+    jobs
+}
+
+/// A table with one column per storage layout, `n` rows: floats exactly representable as f32 (pco narrows them),
+/// irregular doubles, wide-range integers, small integers, dictionary strings, unique strings, hex strings, a column
+/// with NULLs.
+pub fn layout_batch(rng: &mut Rng, table: &str, n: usize, with_nulls: bool) -> Batch {
+    let f32x: Vec<f64> = (0..n).map(|_| rng.range(-4000, 4000) as f64 * 0.25).collect();
+    let f64x: Vec<f64> = (0..n).map(|_| (rng.range(-1_000_000, 1_000_000) as f64) / 3.0 + 1e-7).collect();
+    let wide: Vec<i64> = (0..n).map(|_| rng.range(-1_000_000_000_000, 1_000_000_000_000)).collect();
+    let small: Vec<i64> = (0..n).map(|_| rng.range(0, 200)).collect();
+    let dict: Vec<String> = (0..n).map(|_| rng.pick(&["red", "green", "blue", "a longer colour name"]).to_string()).collect();
+    let uniq: Vec<String> = (0..n).map(|i| format!("row-{}-{}", i, rng.below(1_000_000))).collect();
+    let hexc: Vec<String> = (0..n).map(|_| format!("{:016x}", rng.next())).collect();
+    let mut cols = vec![
+        ("f32x".to_string(), ColRep::Dense(f32x)), ("f64x".to_string(), ColRep::Dense(f64x)), ("wide".to_string(), ColRep::I64(wide)),
+        ("small".to_string(), ColRep::I64(small)), ("dict".to_string(), ColRep::Str(dict)), ("uniq".to_string(), ColRep::Str(uniq)), ("hexc".to_string(), ColRep::Str(hexc)),
+    ];
+    if with_nulls {
+        let cells: Vec<Cell> = (0..n).map(|_| if rng.chance(1, 4) { Cell::Null } else { Cell::f(rng.range(-100, 100) as f64 * 0.5) }).collect();
+        cols.push(("fnul".to_string(), ColRep::Mixed(cells)));
+    }
+    Batch { table: table.into(), len: n as u64, cols }
+}
+
+/// Histories that put every storage layout through flush + restart (+ compaction + restart), with `mem_lz4` on and off.
+pub fn layout_jobs(args: &Args, rng: &mut Rng, null_loss: bool) -> Vec<Job> {
+    let mut jobs = vec![];
+    let n = 300;
+    let combos: Vec<(bool, usize, u64)> = if args.thorough() {
+        vec![(false, 1, 4), (false, 4, 4), (true, 1, 4), (false, 1, 1), (false, 4, 0), (true, 4, 1), (false, 1, 999), (true, 4, 999)]
+    } else { vec![(false, 1, 4), (false, 4, 1), (true, 4, 4)] };
+    for (mem_lz4, io, combine) in combos {
+        let cfg = Cfg { mem_lz4, io, combine, track_codecs: true, ..Cfg::plain() };
+        let nulls = !(null_loss && combine != 999);
+        jobs.push(Job { class: format!("layouts:{}", if mem_lz4 { "lz4on" } else { "lz4off" }), cfg, steps: vec![
+            Step::Ingest(vec![layout_batch(rng, "m", n, nulls)]), Step::Flush, Step::Restart,
+            Step::Ingest(vec![layout_batch(rng, "m", n / 3, nulls)]), Step::Flush, Step::Restart] });
     }
     jobs
 }
